@@ -59,16 +59,20 @@ pub fn run(ctx: &Ctx) -> i32 {
         }
     });
     // ---- controlled read-fill races: one writer op x 1-2 reader ops, entry and exit gates
-    let n_ctl = ctx.tier.pick(72, 144);
+    let n_ctl = ctx.tier.pick(108, 216);
     par_cases(ctx, &mon, "ctl", n_ctl, |cc, rng, l| {
         let key_kind = (cc.idx % 3) as u8;
         let n_readers = 1 + (cc.idx / 3 % 2) as usize;
-        let in_txn = cc.idx / 6 % 2 == 1;
-        let with_flush = cc.idx / 12 % 2 == 1;
+        // cases 72.. : the write does not go through this manager at all (another process / manager wrote the
+        // database) and this manager's cache - cold, i.e. EMPTY - is flushed afterwards, as the change poller
+        // of a read-only directory does; a read is in flight across write and flush
+        let external = cc.idx >= 72;
+        let in_txn = cc.idx / 6 % 2 == 1 && !external;
+        let with_flush = cc.idx / 12 % 2 == 1 && !external;
         let mut dfs = Dfs::new(ctx.tier.pick(2, 3) + with_flush as usize);
         let mut n = 0;
         loop {
-            controlled(key_kind, n_readers, in_txn, with_flush, (cc.idx / 24) as usize % 3, &mut dfs, l);
+            controlled(key_kind, n_readers, in_txn, with_flush, external, (cc.idx / 24) as usize % 3, &mut dfs, l);
             n += 1;
             if !dfs.advance() || n >= ctx.tier.pick(600, 5000) {
                 break;
@@ -407,7 +411,8 @@ fn summarize(r: &Option<DbRecord>) -> String {
 }
 
 /// One writer op and 1-2 reader ops on one cached manager, every order of entry/exit gates up to the bound.
-fn controlled(key_kind_idx: u8, n_readers: usize, writer_in_txn: bool, with_flush: bool, reader_path: usize, strategy: &mut dyn Strategy, l: &mut Local) {
+#[allow(clippy::too_many_arguments)]
+fn controlled(key_kind_idx: u8, n_readers: usize, writer_in_txn: bool, with_flush: bool, external: bool, reader_path: usize, strategy: &mut dyn Strategy, l: &mut Local) {
     let key = match key_kind_idx {
         0 => Key::Node(0),
         1 => Key::Vs(1),
@@ -424,8 +429,13 @@ fn controlled(key_kind_idx: u8, n_readers: usize, writer_in_txn: bool, with_flus
         let reads: Arc<Mutex<Vec<Option<DbRecord>>>> = Arc::new(Mutex::new(vec![]));
         {
             let (m, k) = (mgr.clone(), key.clone());
+            let ext: StorageManager<XDb> = StorageManager::new_no_cache(db.clone());
             r.client(1, async move {
-                if writer_in_txn {
+                if external {
+                    // another manager over the same database writes; then this manager is told to flush
+                    ext.set(mk_record(&k, 2)).await.unwrap();
+                    m.flush_cache().await;
+                } else if writer_in_txn {
                     m.begin_transaction();
                     m.set(mk_record(&k, 2)).await.unwrap();
                     if k != Key::Azks {
@@ -470,7 +480,10 @@ fn controlled(key_kind_idx: u8, n_readers: usize, writer_in_txn: bool, with_flus
     l.eval(1);
     l.count("controlled_schedules", 1);
     let overlap = (0..n_readers).any(|i| out.overlap(1, 2 + i as u32));
-    l.case_h(out.interleaving_hash() ^ (key_kind_idx as u64) << 56 ^ (writer_in_txn as u64) << 55 ^ (with_flush as u64) << 54, overlap);
+    l.case_h(out.interleaving_hash() ^ (key_kind_idx as u64) << 56 ^ (writer_in_txn as u64) << 55 ^ (with_flush as u64) << 54 ^ (external as u64) << 53, overlap);
+    if external {
+        l.count("controlled_schedules_external_writer", 1);
+    }
     if out.stuck {
         l.violation("C16:controlled-stuck", "controlled schedule got stuck", json!({"schedule": out.schedule()}));
         return;
@@ -485,7 +498,7 @@ fn controlled(key_kind_idx: u8, n_readers: usize, writer_in_txn: bool, with_flus
     }
     if after != truth {
         l.violation(
-            format!("C16:read-fill-race/{}/{}{}/path{}", key_kind(&key), if writer_in_txn { "commit" } else { "set" }, if with_flush { "+flush" } else { "" }, reader_path),
+            format!("C16:read-fill-race/{}/{}{}/path{}", key_kind(&key), if external { "external-write+flush-of-empty-cache" } else if writer_in_txn { "commit" } else { "set" }, if with_flush { "+flush" } else { "" }, reader_path),
             format!("after writer and readers finished, a read through the manager returns {} but the database holds {} (a reader's late cache fill replaced the writer's entry)", summarize(&after), summarize(&truth)),
             json!({"key": format!("{key:?}"), "writer_in_transaction": writer_in_txn, "schedule": out.schedule(), "trace": out.trace.iter().map(|(t, d)| format!("{t}:{d}")).collect::<Vec<_>>()}),
         );
